@@ -9,6 +9,8 @@ import (
 	"github.com/vektah/gqlparser/v2/lexer"
 )
 
+import "github.com/vektah/gqlparser/v2/verifhook"
+
 type parser struct {
 	lexer lexer.Lexer
 	err   error
@@ -77,6 +79,7 @@ func (p *parser) peekPos() *ast.Position {
 }
 
 func (p *parser) peek() lexer.Token {
+	verifhook.Step(verifhook.SiteParsePeek)
 	if p.err != nil {
 		return p.prev
 	}
@@ -100,6 +103,7 @@ func (p *parser) error(tok lexer.Token, format string, args ...interface{}) {
 }
 
 func (p *parser) next() lexer.Token {
+	verifhook.Step(verifhook.SiteParseNext)
 	if p.err != nil {
 		return p.prev
 	}
